@@ -179,12 +179,22 @@ class FakeNet:
             raise socket.gaierror(-2, 'Name or service not known')
         return [(socket.AF_INET, socket.SOCK_STREAM, 6, '', (self.ip_of[host], port))]
 
+    def select(self, rlist, wlist, xlist, timeout=None):
+        """every fake socket is readable at once (its script decides what recv returns)"""
+        self.selects = getattr(self, 'selects', 0) + 1
+        return [s for s in rlist if isinstance(s, FakeSocket)], [], []
+
     def __enter__(self):
+        import select as _select
+        self._real_select = _select.select
         socket.socket, socket.getaddrinfo = self.socket, self.getaddrinfo
+        _select.select = self.select
         return self
 
     def __exit__(self, *a):
+        import select as _select
         socket.socket, socket.getaddrinfo = _real_socket, _real_gai
+        _select.select = self._real_select
 
 
 def run_main(argv, net):
@@ -213,3 +223,239 @@ def run_main(argv, net):
     finally:
         sys.argv = old
     return status, buf.getvalue()
+
+
+# ---------------------------------------------------------------------------------------------------- a reactive SSH server
+def ssh_string(b):
+    return struct.pack('>I', len(b)) + b
+
+
+def mpint(n):
+    if n == 0:
+        return ssh_string(b'')
+    l = n.bit_length() // 8 + 1
+    return ssh_string(n.to_bytes(l, 'big'))
+
+
+def rsa_blob(bits, e=65537):
+    n = (1 << (bits - 1)) | (0x5a5a5a5a << 8) | 1            # an odd number of exactly `bits` bits
+    return ssh_string(b'ssh-rsa') + mpint(e) + mpint(n)
+
+
+def ed25519_blob():
+    return ssh_string(b'ssh-ed25519') + ssh_string(bytes(range(32)))
+
+
+def ecdsa_blob(curve=b'nistp256', qlen=65):
+    return ssh_string(b'ecdsa-sha2-' + curve) + ssh_string(curve) + ssh_string(b'\x04' + b'\x11' * (qlen - 1))
+
+
+def cert_blob(kind, key_bits, ca_blob):
+    """OpenSSH certificate (PROTOCOL.certkeys): type, nonce, public key fields, serial, type=2 (host), key id, principals,
+    valid after/before, critical options, extensions, reserved, signature key, signature"""
+    if kind == 'rsa':
+        head = ssh_string(b'ssh-rsa-cert-v01@openssh.com') + ssh_string(b'N' * 32) + mpint(65537) + mpint((1 << (key_bits - 1)) | 1)
+    else:
+        head = ssh_string(b'ssh-ed25519-cert-v01@openssh.com') + ssh_string(b'N' * 32) + ssh_string(bytes(range(32)))
+    body = struct.pack('>Q', 7) + struct.pack('>I', 2) + ssh_string(b'key-id') + ssh_string(ssh_string(b'host.example')) + \
+        struct.pack('>Q', 0) + struct.pack('>Q', 0xffffffffffffffff) + ssh_string(b'') + ssh_string(b'') + ssh_string(b'') + \
+        ssh_string(ca_blob) + ssh_string(b'sig')
+    return head + body
+
+
+class Server(Peer):
+    """reacts to what the client sends: KEXINIT, then KEXDH_INIT -> KEXDH_REPLY(host key), GEX_REQUEST -> GEX_GROUP(p) -> GEX_REPLY"""
+
+    def __init__(self, kex, key, enc, mac, hostkeys=None, moduli=None, select='roundup', banner=b'SSH-2.0-OpenSSH_9.9\r\n', faults=None):
+        Peer.__init__(self, 'server', banner=banner, kex=kexinit(kex, key, enc, mac))
+        self.hostkeys = hostkeys or {}            # host key type -> blob
+        self.moduli = sorted(moduli or [])
+        self.select = select
+        self.faults = faults or {}                # (connection number, stage) -> fault
+        self.requests = []                        # (connection, message type, detail)
+        self.conn_log = []                        # per connection: dict(msgs=[...], closed=bool)
+
+    def choose_modulus(self, mn, pref, mx):
+        """server-side selection styles of the property's quantifier"""
+        ok = [m for m in self.moduli if mn <= m <= mx]
+        if self.select == 'strict':               # smallest modulus inside [min, max] that is >= preferred, else the largest below it
+            up = [m for m in ok if m >= pref]
+            return up[0] if up else (ok[-1] if ok else None)
+        if self.select == 'roundup':              # smallest >= preferred, ignoring max; else the largest available
+            up = [m for m in self.moduli if m >= max(pref, mn)]
+            return up[0] if up else None
+        if self.select == 'openssh-fallback':     # like strict, but falls back to 2048 when nothing fits
+            up = [m for m in ok if m >= pref]
+            return up[0] if up else (ok[-1] if ok else 2048)
+        raise ValueError(self.select)
+
+
+class ServerSocket(FakeSocket):
+    def connect(self, addr):
+        peer = self.net.by_ip.get(addr[0])
+        self.net.note('connect', addr)
+        if not isinstance(peer, Server):
+            return FakeSocket.connect(self, addr)
+        with peer.lock:
+            self.n = peer.connections
+            peer.connections += 1
+            peer.conn_log.append({'msgs': [], 'closed': False})
+        self.peer = peer
+        self.inbuf = b''
+        self.got_banner = False
+        self.hostkey_type = None
+        self.chunks = [peer.banner, packet(peer.kex)]
+        f = peer.faults.get((self.n, 'kexinit'))
+        if f is not None:
+            self.chunks = [peer.banner] + fault_chunks(packet(peer.kex), f)
+        f = peer.faults.get((self.n, 'banner'))
+        if f is not None:
+            rest = self.chunks[1:] if f[0] in ('prebanner', 'segment', 'dup') else []
+            self.chunks = fault_chunks(peer.banner, f) + rest
+
+    def close(self):
+        FakeSocket.close(self)
+        if isinstance(self.peer, Server) and hasattr(self, 'n'):
+            self.peer.conn_log[self.n]['closed'] = True
+
+    def send(self, data):
+        if not isinstance(self.peer, Server):
+            return FakeSocket.send(self, data)
+        self.inbuf += bytes(data)
+        self.peer.conn_log[self.n]['sent'] = self.peer.conn_log[self.n].get('sent', 0) + len(data)
+        if not self.got_banner:
+            i = self.inbuf.find(b'\n')
+            if i < 0:
+                return len(data)
+            self.inbuf = self.inbuf[i + 1:]
+            self.got_banner = True
+        while len(self.inbuf) >= 5:
+            plen, pad = struct.unpack('>IB', self.inbuf[:5])
+            if len(self.inbuf) < 4 + plen:
+                break
+            payload = self.inbuf[5:4 + plen - pad]
+            self.inbuf = self.inbuf[4 + plen:]
+            self.handle(payload)
+        return len(data)
+
+    sendall = send
+
+    def reply(self, stage, pkt):
+        f = self.peer.faults.get((self.n, stage))
+        if f is None:
+            self.chunks.append(pkt)
+        else:
+            self.chunks.extend(fault_chunks(pkt, f))
+
+    def handle(self, payload):
+        srv = self.peer
+        t = payload[0]
+        srv.conn_log[self.n]['msgs'].append(t)
+        if t == 20:
+            # the client's KEXINIT: remember the single host-key type it asks for
+            off = 17
+            lists = []
+            for _ in range(10):
+                n = struct.unpack('>I', payload[off:off + 4])[0]
+                lists.append(payload[off + 4:off + 4 + n].decode().split(','))
+                off += 4 + n
+            self.hostkey_type = lists[1][0]
+            self.kex_alg = lists[0][0]
+        elif t == 30 and not getattr(self, 'gex', False):       # KEXDH_INIT / ECDH_INIT
+            srv.requests.append((self.n, 'kexdh_init', self.hostkey_type))
+            blob = srv.hostkeys.get(self.hostkey_type)
+            if blob is None:
+                self.chunks.append(None)       # close
+                return
+            self.reply('kexdh_reply', packet(b'\x1f' + ssh_string(blob) + ssh_string(b'F' * 32) + ssh_string(b'sig')))
+        elif t == 34:                          # GEX_REQUEST
+            mn, pref, mx = struct.unpack('>III', payload[1:13])
+            m = srv.choose_modulus(mn, pref, mx)
+            srv.requests.append((self.n, 'gex_request', (mn, pref, mx), m))
+            self.gex = True
+            if m is None:
+                self.chunks.append(None)
+                return
+            p = (1 << (m - 1)) | 0xf123456789abcdef
+            self.reply('gex_group', packet(b'\x1f' + mpint(p) + mpint(2)))
+        elif t == 32:                          # GEX_INIT
+            srv.requests.append((self.n, 'gex_init', None))
+            blob = srv.hostkeys.get(self.hostkey_type) or ed25519_blob()
+            self.reply('gex_reply', packet(b'\x21' + ssh_string(blob) + mpint(12345) + ssh_string(b'sig')))
+
+    def recv(self, n, flags=0):
+        self.net.recv_calls = getattr(self.net, 'recv_calls', 0) + 1
+        if self.net.recv_calls > getattr(self.net, 'recv_budget', 200000):
+            raise SystemExit(99)          # a hang: the audit keeps reading although the peer has nothing more to say
+        if self.chunks and self.chunks[0] is None:
+            self.chunks = []
+            return b''
+        return FakeSocket.recv(self, n, flags)
+
+
+def unframe(pkt):
+    plen, pad = struct.unpack('>IB', pkt[:5])
+    return pkt[5:4 + plen - pad]
+
+
+def fields(data, off):
+    """length-prefixed fields of data[off:] -> [(start of length field, length, start of data)] (stops at the first that does not fit)"""
+    out = []
+    while off + 4 <= len(data):
+        n = struct.unpack('>I', data[off:off + 4])[0]
+        if off + 4 + n > len(data):
+            break
+        out.append((off, n, off + 4))
+        off += 4 + n
+    return out
+
+
+def mutate_len(data, hdr, path, mode):
+    """set the length field of the path[0]-th field of data (after a header of hdr bytes) -- recursively for nested blobs --
+    to 0 / len-1 / len+1 / huge, leaving the bytes that follow as they are"""
+    fl = fields(data, hdr)
+    if path[0] >= len(fl):
+        return data
+    off, n, d0 = fl[path[0]]
+    if len(path) > 1:
+        inner = mutate_len(data[d0:d0 + n], 0, path[1:], mode)
+        return data[:off] + struct.pack('>I', len(inner)) + inner + data[d0 + n:]
+    new = {'zero': 0, 'minus1': max(n - 1, 0), 'plus1': n + 1, 'huge': 0xfffffff0}[mode]
+    return data[:off] + struct.pack('>I', new) + data[d0:]
+
+
+def fault_chunks(pkt, f):
+    kind = f[0]
+    if kind == 'truncate':
+        return [pkt[:f[1]]]
+    if kind == 'garbage':
+        return [bytes((i * 37 + 11) % 256 for i in range(f[1]))]
+    if kind == 'close':
+        return [None]
+    if kind == 'stall':
+        return [socket.timeout('timed out')]
+    if kind == 'setlen':
+        pl = unframe(pkt)
+        return [packet(mutate_len(pl, 17 if pl[:1] == b'\x14' else 1, f[1], f[2]))]
+    if kind == 'wrongtype':
+        return [pkt[:5] + bytes([f[1]]) + pkt[6:]]
+    if kind == 'debug-first':
+        return [packet(b'\x04\x00' + ssh_string(b'dbg') + ssh_string(b''))] * f[1] + [pkt]
+    if kind == 'debug-only':
+        return [packet(b'\x04\x00' + ssh_string(b'dbg') + ssh_string(b''))] * f[1]
+    if kind == 'dup':
+        return [pkt, pkt]
+    if kind == 'segment':
+        return [pkt[i:i + f[1]] for i in range(0, len(pkt), f[1])]
+    if kind == 'prebanner':
+        return [b''.join(l + b'\r\n' for l in f[1]) + pkt]
+    if kind == 'bytes':
+        return [f[1]]
+    raise ValueError(kind)
+
+
+def _server_socket(self, family=socket.AF_INET, type=socket.SOCK_STREAM, proto=0, fileno=None):
+    return ServerSocket(self, family)
+
+
+FakeNet.socket = _server_socket
